@@ -139,6 +139,8 @@ def classify(g, gen_file, res, unit_prop):
         if tag is None:
             if site is not None and site[0] == "src":
                 where = norm_src(site[3])
+                if generic and not re.match(r"C\d+\.", generic):
+                    generic = "%s.%s" % (unit_prop, generic)
                 name = generic if generic else "%s.%s.safety.%s" % (unit_prop, g.unit, kind)
                 tag = "%s@%s" % (name, where)
             elif site is not None:
